@@ -178,24 +178,26 @@ theorem inferred_has {fg : FromGraph V} {n : String} (h : inferredLayerName fg =
   unfold inferredLayerName at h
   simp only at h
   split at h
-  · rename_i n' heq
-    cases h
-    have hmem : n ∈ (layerNames fg.layer fg.numblocks.length).filter
-        (fun n => sameSet (bidsOf fg.layer fg.numblocks.length n) (grid fg.numblocks)) := by
-      rw [heq]; exact List.mem_cons_self
-    have hs := (List.mem_filter.mp hmem).2
-    simp only [sameSet, Bool.and_eq_true, List.all_eq_true] at hs
-    have hc := hs.2 b hb
-    have hb' : b ∈ bidsOf fg.layer fg.numblocks.length n := by simpa using hc
-    simp only [bidsOf, List.mem_map, List.mem_filter] at hb'
-    obtain ⟨p, ⟨hp, hcond⟩, hpb⟩ := hb'
-    obtain ⟨k, v⟩ := p
-    simp only [Bool.and_eq_true, beq_iff_eq] at hcond
-    have hk : k = ⟨n, b⟩ := by
-      cases k; simp_all
-    subst hk
-    exact get?_isSome_of_mem hp
   · cases h
+  · rename_i n' rest heq
+    split at h
+    · cases h
+      have hmem : n ∈ ((fg.layer.filter (fun p => p.1.bid.length == fg.numblocks.length)).map (fun p => p.1.name)).filter
+          (fun n => sameSet (bidsOf fg.layer fg.numblocks.length n) (grid fg.numblocks)) := by
+        rw [heq]; exact List.mem_cons_self
+      have hs := (List.mem_filter.mp hmem).2
+      simp only [sameSet, Bool.and_eq_true, List.all_eq_true] at hs
+      have hc := hs.2 b hb
+      have hb' : b ∈ bidsOf fg.layer fg.numblocks.length n := by simpa using hc
+      simp only [bidsOf, List.mem_map, List.mem_filter] at hb'
+      obtain ⟨p, ⟨hp, hcond⟩, hpb⟩ := hb'
+      obtain ⟨k, v⟩ := p
+      simp only [Bool.and_eq_true, beq_iff_eq] at hcond
+      have hk : k = ⟨n, b⟩ := by
+        cases k; simp_all
+      subst hk
+      exact get?_isSome_of_mem hp
+    · cases h
 
 /-- whatever key the lookup returns is present in `dsk` (so `dsk[layer_key]` never raises KeyError) -/
 theorem findLayerKey_present {name : String} {kb : List (BlockId × Key)} {inf : Option String}
@@ -233,4 +235,799 @@ theorem findLayerKey_present {name : String} {kb : List (BlockId × Key)} {inf :
         · cases h; exact hn
 
 
+
+/-! ## the loop of `FromGraph._layer` -/
+
+/-- what the iteration for block `b` (lookup result `k`) leaves in the dict -/
+def BlockDone (fg : FromGraph V) (l : Layer V) (b : BlockId) (k : Key) : Prop :=
+  (k = ⟨fg.name, b⟩ ∧ get? l k = get? fg.layer k) ∨
+  (k ≠ ⟨fg.name, b⟩ ∧ ∃ v, get? fg.layer k = some (.data v) ∧ get? l ⟨fg.name, b⟩ = some (.data v)) ∨
+  (k ≠ ⟨fg.name, b⟩ ∧ ∃ nd, get? fg.layer k = some nd ∧ nd.isTask = true ∧
+      get? l ⟨fg.name, b⟩ = some (.alias k) ∧ get? l k = some nd)
+
+theorem find0_eq {fg : FromGraph V} {dsk : Layer V} {b : BlockId} {kb : List (BlockId × Key)}
+    (hkb : keysByBlockId fg.keys [] = .ok kb)
+    (hag : ∀ k : Key, k.bid = b → get? dsk k = get? fg.layer k) :
+    findLayerKey fg.name kb (inferredLayerName fg) dsk b = find0 fg b := by
+  unfold find0
+  simp only [hkb]
+  exact findLayerKey_congr (keysByBlockId_ok hkb KbOK_nil) hag
+
+theorem step_ok {fg : FromGraph V} {dsk : Layer V} {b : BlockId} (hb : b ∈ grid fg.numblocks)
+    (hag : ∀ k : Key, k.bid = b → get? dsk k = get? fg.layer k) {k : Key} (hf : find0 fg b = .ok k) :
+    ∃ d, step fg dsk b = .ok d ∧ (∀ k' : Key, k'.bid ≠ b → get? d k' = get? dsk k') ∧ BlockDone fg d b k := by
+  cases hkb : keysByBlockId fg.keys [] with
+  | error e => simp [find0, hkb] at hf
+  | ok kb =>
+    have hKb := keysByBlockId_ok hkb KbOK_nil
+    have hfind := find0_eq (dsk := dsk) hkb hag
+    rw [hf] at hfind
+    have hbid : k.bid = b := findLayerKey_bid hKb hfind
+    have hpres : has dsk k = true := by
+      apply findLayerKey_present (inf := inferredLayerName fg) _ hfind
+      intro n hn
+      have := inferred_has hn hb
+      simp only [has] at this ⊢
+      rw [hag ⟨n, b⟩ rfl]; exact this
+    have hsame : get? dsk k = get? fg.layer k := hag k hbid
+    unfold step
+    simp only [hkb, hfind]
+    by_cases hk : (⟨fg.name, b⟩ : Key) = k
+    · simp only [hk, if_true]
+      exact ⟨dsk, rfl, fun _ _ => rfl, Or.inl ⟨hk.symm, hsame⟩⟩
+    · simp only [hk, if_false]
+      have hk' : k ≠ ⟨fg.name, b⟩ := fun h => hk h.symm
+      cases hg : get? dsk k with
+      | none => simp [has, hg] at hpres
+      | some nd =>
+        cases nd with
+        | data v =>
+          refine ⟨_, rfl, ?_, Or.inr (Or.inl ⟨hk', v, by rw [← hsame]; exact hg, ?_⟩)⟩
+          · intro k' hk'b
+            have h1 : k ≠ k' := fun h => hk'b (h ▸ hbid)
+            have h2 : (⟨fg.name, b⟩ : Key) ≠ k' := fun h => hk'b (h ▸ rfl)
+            rw [get?_erase_ne _ h1, get?_assign_ne _ _ h2]
+          · rw [get?_erase_ne _ hk', get?_assign_self]
+        | task v =>
+          refine ⟨_, rfl, ?_, Or.inr (Or.inr ⟨hk', .task v, by rw [← hsame]; exact hg, rfl, ?_, ?_⟩)⟩
+          · intro k' hk'b
+            have h2 : (⟨fg.name, b⟩ : Key) ≠ k' := fun h => hk'b (h ▸ rfl)
+            rw [get?_assign_ne _ _ h2]
+          · rw [get?_assign_self]
+          · rw [get?_assign_ne _ _ hk]; exact hg
+        | alias t =>
+          refine ⟨_, rfl, ?_, Or.inr (Or.inr ⟨hk', .alias t, by rw [← hsame]; exact hg, rfl, ?_, ?_⟩)⟩
+          · intro k' hk'b
+            have h2 : (⟨fg.name, b⟩ : Key) ≠ k' := fun h => hk'b (h ▸ rfl)
+            rw [get?_assign_ne _ _ h2]
+          · rw [get?_assign_self]
+          · rw [get?_assign_ne _ _ hk]; exact hg
+
+theorem step_find {fg : FromGraph V} {dsk d : Layer V} {b : BlockId}
+    (hag : ∀ k : Key, k.bid = b → get? dsk k = get? fg.layer k) (h : step fg dsk b = .ok d) :
+    ∃ k, find0 fg b = .ok k := by
+  unfold step at h
+  cases hkb : keysByBlockId fg.keys [] with
+  | error e => simp [hkb] at h
+  | ok kb =>
+    simp only [hkb] at h
+    cases hfl : findLayerKey fg.name kb (inferredLayerName fg) dsk b with
+    | error e => simp [hfl] at h
+    | ok lk => exact ⟨lk, by rw [← find0_eq hkb hag]; exact hfl⟩
+
+theorem step_error_value {fg : FromGraph V} {dsk : Layer V} {b : BlockId} {e : Err} (hb : b ∈ grid fg.numblocks)
+    (hag : ∀ k : Key, k.bid = b → get? dsk k = get? fg.layer k) (h : step fg dsk b = .error e) :
+    ∃ e', find0 fg b = .error e' := by
+  cases hf : find0 fg b with
+  | error e' => exact ⟨e', rfl⟩
+  | ok k =>
+    obtain ⟨d, hd, _⟩ := step_ok hb hag hf
+    rw [hd] at h; cases h
+
+/-- the loop, started on a dict that still agrees with the original layer on the blocks to come -/
+theorem run_ok {fg : FromGraph V} : ∀ (bs : List BlockId) (dsk : Layer V), bs.Nodup →
+    (∀ b ∈ bs, b ∈ grid fg.numblocks) →
+    (∀ k : Key, k.bid ∈ bs → get? dsk k = get? fg.layer k) →
+    (∀ b ∈ bs, ∃ k, find0 fg b = .ok k) →
+    ∃ l, run fg bs dsk = .ok l ∧ (∀ k : Key, k.bid ∉ bs → get? l k = get? dsk k) ∧
+      ∀ b ∈ bs, ∀ k, find0 fg b = .ok k → BlockDone fg l b k
+  | [], dsk, _, _, _, _ => ⟨dsk, rfl, fun _ _ => rfl, fun _ h => by cases h⟩
+  | b :: bs, dsk, hnd, hgrid, hag, hfind => by
+    obtain ⟨k, hk⟩ := hfind b List.mem_cons_self
+    have hnd' := List.nodup_cons.mp hnd
+    obtain ⟨d, hd, hother, hdone⟩ :=
+      step_ok (dsk := dsk) (hgrid b List.mem_cons_self) (fun k' hk' => hag k' (hk' ▸ List.mem_cons_self)) hk
+    have hag' : ∀ k' : Key, k'.bid ∈ bs → get? d k' = get? fg.layer k' := by
+      intro k' hk'
+      have hne : k'.bid ≠ b := fun h => hnd'.1 (h ▸ hk')
+      rw [hother k' hne]; exact hag k' (List.mem_cons_of_mem _ hk')
+    obtain ⟨l, hl, hrest, hdone'⟩ := run_ok bs d hnd'.2 (fun b' hb' => hgrid b' (List.mem_cons_of_mem _ hb')) hag'
+      (fun b' hb' => hfind b' (List.mem_cons_of_mem _ hb'))
+    refine ⟨l, by simp [run, hd, hl], ?_, ?_⟩
+    · intro k' hk'
+      have h1 : k'.bid ∉ bs := fun h => hk' (List.mem_cons_of_mem _ h)
+      have h2 : k'.bid ≠ b := fun h => hk' (h ▸ List.mem_cons_self)
+      rw [hrest k' h1, hother k' h2]
+    · intro b' hb' k' hk'
+      rcases List.mem_cons.mp hb' with rfl | hb''
+      · -- the block just processed: later iterations do not touch keys of block b'
+        have hkk : k' = k := by rw [hk] at hk'; cases hk'; rfl
+        subst hkk
+        have hkb : k'.bid = b' := by
+          cases hkb : keysByBlockId fg.keys [] with
+          | error e => simp [find0, hkb] at hk
+          | ok kb =>
+            simp only [find0, hkb] at hk
+            exact findLayerKey_bid (keysByBlockId_ok hkb KbOK_nil) hk
+        have hk1 : get? l k' = get? d k' := hrest k' (by rw [hkb]; exact hnd'.1)
+        have hk2 : get? l ⟨fg.name, b'⟩ = get? d ⟨fg.name, b'⟩ := hrest ⟨fg.name, b'⟩ hnd'.1
+        rcases hdone with ⟨h1, h2⟩ | ⟨h1, v, h2, h3⟩ | ⟨h1, nd, h2, h3, h4, h5⟩
+        · exact Or.inl ⟨h1, by rw [hk1]; exact h2⟩
+        · exact Or.inr (Or.inl ⟨h1, v, h2, by rw [hk2]; exact h3⟩)
+        · exact Or.inr (Or.inr ⟨h1, nd, h2, h3, by rw [hk2]; exact h4, by rw [hk1]; exact h5⟩)
+      · exact hdone' b' hb'' k' hk'
+
+theorem run_find {fg : FromGraph V} : ∀ (bs : List BlockId) (dsk l : Layer V), bs.Nodup →
+    (∀ b ∈ bs, b ∈ grid fg.numblocks) →
+    (∀ k : Key, k.bid ∈ bs → get? dsk k = get? fg.layer k) →
+    run fg bs dsk = .ok l → ∀ b ∈ bs, ∃ k, find0 fg b = .ok k
+  | [], _, _, _, _, _, _ => fun _ h => by cases h
+  | b :: bs, dsk, l, hnd, hgrid, hag, h => by
+    have hnd' := List.nodup_cons.mp hnd
+    have hagb : ∀ k' : Key, k'.bid = b → get? dsk k' = get? fg.layer k' :=
+      fun k' hk' => hag k' (hk' ▸ List.mem_cons_self)
+    simp only [run] at h
+    cases hs : step fg dsk b with
+    | error e => simp [hs] at h
+    | ok d =>
+      simp only [hs] at h
+      obtain ⟨k, hk⟩ := step_find hagb hs
+      obtain ⟨d', hd', hother, _⟩ := step_ok (dsk := dsk) (hgrid b List.mem_cons_self) hagb hk
+      rw [hs] at hd'; cases hd'
+      have hag' : ∀ k' : Key, k'.bid ∈ bs → get? d k' = get? fg.layer k' := by
+        intro k' hk'
+        have hne : k'.bid ≠ b := fun h => hnd'.1 (h ▸ hk')
+        rw [hother k' hne]; exact hag k' (List.mem_cons_of_mem _ hk')
+      have ih := run_find bs d l hnd'.2 (fun b' hb' => hgrid b' (List.mem_cons_of_mem _ hb')) hag' h
+      intro b' hb'
+      rcases List.mem_cons.mp hb' with rfl | hb''
+      · exact ⟨k, hk⟩
+      · exact ih b' hb''
+
+
+
+/-! ## `FromGraph._layer()` as a whole -/
+
+theorem layerOf_ok_iff (fg : FromGraph V) :
+    (∃ l, layerOf fg = .ok l) ↔ ∀ b ∈ grid fg.numblocks, ∃ k, find0 fg b = .ok k := by
+  constructor
+  · rintro ⟨l, hl⟩
+    exact run_find (grid fg.numblocks) fg.layer l (grid_nodup _) (fun _ h => h) (fun _ _ => rfl) hl
+  · intro h
+    obtain ⟨l, hl, _⟩ := run_ok (fg := fg) (grid fg.numblocks) fg.layer (grid_nodup _) (fun _ h => h) (fun _ _ => rfl) h
+    exact ⟨l, hl⟩
+
+theorem keysByBlockId_error {ks : List Key} {acc : List (BlockId × Key)} {e : Err}
+    (h : keysByBlockId ks acc = .error e) : e = .valueError := by
+  induction ks generalizing acc with
+  | nil => simp [keysByBlockId] at h
+  | cons k ks ih =>
+    simp only [keysByBlockId] at h
+    split at h
+    · exact ih h
+    · split at h
+      · exact ih h
+      · cases h; rfl
+
+theorem findLayerKey_error {name : String} {kb : List (BlockId × Key)} {inf : Option String}
+    {dsk : Layer V} {b : BlockId} {e : Err} (h : findLayerKey name kb inf dsk b = .error e) : e = .valueError := by
+  unfold findLayerKey at h
+  cases hl : kb.lookup b with
+  | none =>
+    cases h2 : has dsk ⟨name, b⟩ <;> rcases inf with _ | n <;> simp [hl, h2] at h
+    exact h.symm
+  | some e1 =>
+    cases h1 : has dsk e1 <;> cases h2 : has dsk ⟨name, b⟩ <;> rcases inf with _ | n <;> simp [hl, h1, h2] at h
+    exact h.symm
+
+theorem find0_error {fg : FromGraph V} {b : BlockId} {e : Err} (h : find0 fg b = .error e) : e = .valueError := by
+  unfold find0 at h
+  cases hkb : keysByBlockId fg.keys [] with
+  | error e' => simp only [hkb] at h; cases h; exact keysByBlockId_error hkb
+  | ok kb => simp only [hkb] at h; exact findLayerKey_error h
+
+/-- the lookup fails exactly when the block is absent in all three ways -/
+theorem find0_error_iff {fg : FromGraph V} {kb : List (BlockId × Key)} (hkb : keysByBlockId fg.keys [] = .ok kb)
+    (b : BlockId) :
+    find0 fg b = .error .valueError ↔
+      (∀ e, kb.lookup b = some e → has fg.layer e = false) ∧ has fg.layer ⟨fg.name, b⟩ = false ∧
+        inferredLayerName fg = none := by
+  unfold find0 findLayerKey
+  simp only [hkb]
+  cases hl : kb.lookup b with
+  | none =>
+    cases h2 : has fg.layer ⟨fg.name, b⟩ <;> cases h3 : inferredLayerName fg <;> simp
+  | some e =>
+    cases h1 : has fg.layer e <;> cases h2 : has fg.layer ⟨fg.name, b⟩ <;> cases h3 : inferredLayerName fg <;> simp [h1]
+
+theorem run_error {fg : FromGraph V} : ∀ (bs : List BlockId) (dsk : Layer V) (e : Err), bs.Nodup →
+    (∀ b ∈ bs, b ∈ grid fg.numblocks) →
+    (∀ k : Key, k.bid ∈ bs → get? dsk k = get? fg.layer k) →
+    run fg bs dsk = .error e → e = .valueError ∧ ∃ b ∈ bs, find0 fg b = .error .valueError
+  | [], _, _, _, _, _, h => by simp [run] at h
+  | b :: bs, dsk, e, hnd, hgrid, hag, h => by
+    have hnd' := List.nodup_cons.mp hnd
+    have hagb : ∀ k' : Key, k'.bid = b → get? dsk k' = get? fg.layer k' :=
+      fun k' hk' => hag k' (hk' ▸ List.mem_cons_self)
+    simp only [run] at h
+    cases hf : find0 fg b with
+    | error e' =>
+      have he' := find0_error hf
+      subst he'
+      refine ⟨?_, b, List.mem_cons_self, hf⟩
+      -- the step fails with the lookup's own error
+      cases hs : step fg dsk b with
+      | ok d =>
+        obtain ⟨k, hk⟩ := step_find hagb hs
+        rw [hf] at hk; cases hk
+      | error e'' =>
+        simp only [hs] at h; cases h
+        unfold step at hs
+        cases hkb : keysByBlockId fg.keys [] with
+        | error e3 => simp only [hkb] at hs; cases hs; exact keysByBlockId_error hkb
+        | ok kb =>
+          simp only [hkb] at hs
+          rw [find0_eq hkb hagb, hf] at hs
+          cases hs; rfl
+    | ok k =>
+      obtain ⟨d, hd, hother, _⟩ := step_ok (dsk := dsk) (hgrid b List.mem_cons_self) hagb hf
+      simp only [hd] at h
+      have hag' : ∀ k' : Key, k'.bid ∈ bs → get? d k' = get? fg.layer k' := by
+        intro k' hk'
+        have hne : k'.bid ≠ b := fun h => hnd'.1 (h ▸ hk')
+        rw [hother k' hne]; exact hag k' (List.mem_cons_of_mem _ hk')
+      obtain ⟨he, b', hb', hfb'⟩ := run_error bs d e hnd'.2 (fun b' hb' => hgrid b' (List.mem_cons_of_mem _ hb')) hag' h
+      exact ⟨he, b', List.mem_cons_of_mem _ hb', hfb'⟩
+
+/-- FAILURE BRANCH: `_layer()` raises, and then always the ValueError "from_graph cannot find output
+block", exactly when the three-way lookup fails for some block of the grid -/
+theorem layerOf_error_iff (fg : FromGraph V) :
+    layerOf fg = .error .valueError ↔ ∃ b ∈ grid fg.numblocks, find0 fg b = .error .valueError := by
+  constructor
+  · intro h
+    exact (run_error (grid fg.numblocks) fg.layer _ (grid_nodup _) (fun _ h => h) (fun _ _ => rfl) h).2
+  · rintro ⟨b, hb, hf⟩
+    cases hl : layerOf fg with
+    | ok l =>
+      obtain ⟨k, hk⟩ := (layerOf_ok_iff fg).mp ⟨l, hl⟩ b hb
+      rw [hf] at hk; cases hk
+    | error e =>
+      have := (run_error (grid fg.numblocks) fg.layer _ (grid_nodup _) (fun _ h => h) (fun _ _ => rfl) hl).1
+      rw [this]
+
+theorem layerOf_error_kind {fg : FromGraph V} {e : Err} (h : layerOf fg = .error e) : e = .valueError :=
+  (run_error (grid fg.numblocks) fg.layer _ (grid_nodup _) (fun _ h => h) (fun _ _ => rfl) h).1
+
+theorem layerOf_done {fg : FromGraph V} {l : Layer V} (h : layerOf fg = .ok l) {b : BlockId}
+    (hb : b ∈ grid fg.numblocks) {k : Key} (hk : find0 fg b = .ok k) : BlockDone fg l b k := by
+  have hall := (layerOf_ok_iff fg).mp ⟨l, h⟩
+  obtain ⟨l', hl', _, hdone⟩ := run_ok (fg := fg) (grid fg.numblocks) fg.layer (grid_nodup _) (fun _ h => h) (fun _ _ => rfl) hall
+  have : l' = l := by
+    have : layerOf fg = .ok l' := hl'
+    rw [h] at this; cases this; rfl
+  subst this
+  exact hdone b hb k hk
+
+theorem evalKey_direct {l : Layer V} {k : Key} {v : V} {f : Nat}
+    (h : get? l k = some (.data v) ∨ get? l k = some (.task v)) : evalKey (f + 1) l k = some v := by
+  rcases h with h | h <;> simp [evalKey, h]
+
+theorem length_pos_of_get? {l : Layer V} {k : Key} {nd : Node V} (h : get? l k = some nd) : 0 < l.length := by
+  cases l with
+  | nil => cases h
+  | cons _ _ => simp
+
+/-- VALUES: the rebuilt layer hands out, under `(name, *b)`, the value stored under the key the lookup selected -/
+theorem layerOf_value {fg : FromGraph V} {l : Layer V} (h : layerOf fg = .ok l) {b : BlockId}
+    (hb : b ∈ grid fg.numblocks) {k : Key} (hk : find0 fg b = .ok k) {v : V}
+    (hv : get? fg.layer k = some (.data v) ∨ get? fg.layer k = some (.task v)) :
+    eval l ⟨fg.name, b⟩ = some v := by
+  unfold eval
+  rcases layerOf_done h hb hk with ⟨h1, h2⟩ | ⟨h1, v', h2, h3⟩ | ⟨h1, nd, h2, h3, h4, h5⟩
+  · subst h1
+    exact evalKey_direct (by rw [h2]; exact hv)
+  · have : v' = v := by
+      rcases hv with hv | hv <;> rw [h2] at hv <;> cases hv; rfl
+    subst this
+    exact evalKey_direct (Or.inl h3)
+  · have hnd : nd = .task v := by
+      rcases hv with hv | hv
+      · rw [h2] at hv; cases hv; cases h3
+      · rw [h2] at hv; cases hv; rfl
+    subst hnd
+    obtain ⟨n, hn⟩ : ∃ n, l.length = n + 1 := ⟨l.length - 1, by have := length_pos_of_get? h5; omega⟩
+    rw [hn]
+    simp only [evalKey, h4]
+    exact evalKey_direct (Or.inr h5)
+
+/-- PASSTHROUGH: with no `keys` and every own key present, `_layer()` returns the layer unchanged -/
+theorem run_passthrough {fg : FromGraph V} (hkeys : fg.keys = []) : ∀ (bs : List BlockId) (dsk : Layer V),
+    (∀ b ∈ bs, has dsk ⟨fg.name, b⟩ = true) → run fg bs dsk = .ok dsk
+  | [], _, _ => rfl
+  | b :: bs, dsk, h => by
+    have hb := h b List.mem_cons_self
+    have hs : step fg dsk b = .ok dsk := by
+      simp [step, hkeys, keysByBlockId, findLayerKey, hb]
+    simp only [run, hs]
+    exact run_passthrough hkeys bs dsk (fun b' hb' => h b' (List.mem_cons_of_mem _ hb'))
+
+theorem layerOf_passthrough {fg : FromGraph V} (hkeys : fg.keys = [])
+    (h : ∀ b ∈ grid fg.numblocks, has fg.layer ⟨fg.name, b⟩ = true) : layerOf fg = .ok fg.layer :=
+  run_passthrough hkeys _ _ h
+
+
+
+/-! ## entry points -/
+
+/-- the graph defines `name × grid(nb)` with block values `vals` (C04 root keys + refinement) -/
+def RootKeys (g : Layer V) (name : String) (nb : List Nat) (vals : BlockId → V) : Prop :=
+  ∀ b ∈ grid nb, eval g ⟨name, b⟩ = some (vals b)
+
+theorem mapM_some {α β : Type} (f : α → Option β) (g : α → β) :
+    ∀ l : List α, (∀ x ∈ l, f x = some (g x)) → l.mapM f = some (l.map g)
+  | [], _ => rfl
+  | a :: as, h => by
+    have ha := h a List.mem_cons_self
+    have ih := mapM_some f g as (fun x hx => h x (List.mem_cons_of_mem _ hx))
+    simp [List.mapM_cons, ha, ih]
+
+theorem mapM_id_some {α β : Type} (h : α → Option β) (g : α → β) :
+    ∀ l : List α, (∀ x ∈ l, h x = some (g x)) → (l.map h).mapM id = some (l.map g)
+  | [], _ => rfl
+  | a :: as, hh => by
+    have ha := hh a List.mem_cons_self
+    have ih := mapM_id_some h g as (fun x hx => hh x (List.mem_cons_of_mem _ hx))
+    simp [List.mapM_cons, ha, ih]
+
+theorem computeKeys_eq {g : Layer V} {name : String} {nb : List Nat} {vals : BlockId → V}
+    (h : RootKeys g name nb vals) : computeKeys g name nb = some ((grid nb).map vals) :=
+  mapM_some _ _ _ h
+
+theorem has_of_eval {g : Layer V} {k : Key} {v : V} (h : eval g k = some v) : has g k = true := by
+  unfold eval at h
+  simp only [evalKey] at h
+  cases hg : get? g k with
+  | none => simp [hg] at h
+  | some nd => simp [has, hg]
+
+/-- the `{k: value}` dict a scheduler hands back for the keys `(n, *b)`, `b ∈ bs` -/
+def dataLayer (n : String) (bs : List BlockId) (vals : BlockId → V) : Layer V :=
+  bs.map (fun b => ((⟨n, b⟩ : Key), Node.data (vals b)))
+
+theorem get?_dataLayer {n : String} {vals : BlockId → V} : ∀ {bs : List BlockId} {b : BlockId}, b ∈ bs →
+    get? (dataLayer n bs vals) ⟨n, b⟩ = some (.data (vals b))
+  | b0 :: bs, b, h => by
+    by_cases hb : b0 = b
+    · subst hb; simp [dataLayer, get?]
+    · have : (⟨n, b0⟩ : Key) ≠ ⟨n, b⟩ := fun h => hb (by cases h; rfl)
+      simp only [dataLayer, List.map_cons, get?, this, if_false]
+      rcases List.mem_cons.mp h with h | h
+      · exact absurd h.symm hb
+      · exact get?_dataLayer h
+
+theorem get?_dataLayer_other {n m : String} {vals : BlockId → V} (hnm : n ≠ m) :
+    ∀ (bs : List BlockId) (b : BlockId), get? (dataLayer n bs vals) ⟨m, b⟩ = none
+  | [], _ => rfl
+  | b0 :: bs, b => by
+    have : (⟨n, b0⟩ : Key) ≠ ⟨m, b⟩ := fun h => hnm (by cases h; rfl)
+    simp only [dataLayer, List.map_cons, get?, this, if_false]
+    exact get?_dataLayer_other hnm bs b
+
+theorem schedule_eq {g : Layer V} {name : String} {nb : List Nat} {vals : BlockId → V}
+    (h : RootKeys g name nb vals) :
+    schedule g ((grid nb).map (fun b => (⟨name, b⟩ : Key))) = some (dataLayer name (grid nb) vals) := by
+  unfold schedule dataLayer
+  rw [mapM_some _ (fun k : Key => (k, Node.data (vals k.bid)))]
+  · simp [List.map_map, Function.comp_def]
+  · intro k hk
+    simp only [List.mem_map] at hk
+    obtain ⟨b, hb, rfl⟩ := hk
+    simp [h b hb]
+
+theorem rootKeys_dataLayer (n : String) (nb : List Nat) (vals : BlockId → V) :
+    RootKeys (dataLayer n (grid nb) vals) n nb vals := by
+  intro b hb
+  unfold eval
+  exact evalKey_direct (Or.inl (get?_dataLayer hb))
+
+/-- a collection rebuilt over a layer that already defines its own keys computes those keys -/
+theorem computeFG_passthrough {E : Type} (c : Coll E) {g : Layer V} {vals : BlockId → V}
+    (h : RootKeys g c.rawName c.numblocks vals) :
+    computeFG (rebuild c g) = .ok (some ((grid c.numblocks).map vals)) := by
+  have hp : layerOf (rebuild c g).expr = .ok g :=
+    layerOf_passthrough (fg := (rebuild c g).expr) rfl (fun b hb => has_of_eval (h b hb))
+  unfold computeFG
+  rw [hp]
+  simp only [rebuild, Coll.numblocks]
+  exact congrArg _ (computeKeys_eq h)
+
+
+
+/-! ## lookup by block id over a scheduler result keyed by ONE foreign name (`dask.persist`) -/
+
+theorem sameSet_self (a : List BlockId) : sameSet a a = true := by
+  simp [sameSet, List.all_eq_true]
+
+theorem dataLayer_filter_rank {ℓ : String} {nbLow : List Nat} {vals : BlockId → V} {ndim : Nat}
+    (hr : nbLow.length = ndim) :
+    (dataLayer ℓ (grid nbLow) vals).filter (fun p => p.1.bid.length == ndim) = dataLayer ℓ (grid nbLow) vals := by
+  apply List.filter_eq_self.mpr
+  intro p hp
+  simp only [dataLayer, List.mem_map] at hp
+  obtain ⟨b, hb, rfl⟩ := hp
+  simp [grid_length hb, hr]
+
+theorem bidsOf_dataLayer {ℓ : String} {nbLow : List Nat} {vals : BlockId → V} {ndim : Nat}
+    (hr : nbLow.length = ndim) : bidsOf (dataLayer ℓ (grid nbLow) vals) ndim ℓ = grid nbLow := by
+  unfold bidsOf
+  have : (dataLayer ℓ (grid nbLow) vals).filter (fun p => p.1.bid.length == ndim && p.1.name == ℓ)
+      = dataLayer ℓ (grid nbLow) vals := by
+    apply List.filter_eq_self.mpr
+    intro p hp
+    simp only [dataLayer, List.mem_map] at hp
+    obtain ⟨b, hb, rfl⟩ := hp
+    simp [grid_length hb, hr]
+  rw [this]
+  simp [dataLayer, List.map_map, Function.comp_def]
+
+theorem names_dataLayer (ℓ : String) (bs : List BlockId) (vals : BlockId → V) :
+    (dataLayer ℓ bs vals).map (fun p => p.1.name) = bs.map (fun _ => ℓ) := by
+  simp [dataLayer, List.map_map, Function.comp_def]
+
+/-- the scheduler result covers exactly our grid under one name: that name is inferred -/
+theorem inferred_dataLayer {ℓ nm : String} {nb : List Nat} {vals : BlockId → V} {ks : List Key}
+    (hne : grid nb ≠ []) :
+    inferredLayerName (⟨dataLayer ℓ (grid nb) vals, nb, ks, nm⟩ : FromGraph V) = some ℓ := by
+  unfold inferredLayerName
+  simp only
+  rw [dataLayer_filter_rank rfl, names_dataLayer]
+  have hP : ∀ n ∈ (grid nb).map (fun _ => ℓ),
+      sameSet (bidsOf (dataLayer ℓ (grid nb) vals) nb.length n) (grid nb) = true := by
+    intro n hn
+    simp only [List.mem_map] at hn
+    obtain ⟨_, _, rfl⟩ := hn
+    rw [bidsOf_dataLayer rfl]; exact sameSet_self _
+  rw [List.filter_eq_self.mpr hP]
+  cases hg : grid nb with
+  | nil => exact absurd hg hne
+  | cons b0 rest => simp [List.all_eq_true]
+
+/-- LAYOUT DRIFT (known finding `from_graph:missing-output-block`): the scheduler result is keyed by one
+foreign name over a grid that is not ours: nothing is inferred -/
+theorem inferred_dataLayer_drift {ℓ nm : String} {nb nbLow : List Nat} {vals : BlockId → V} {ks : List Key}
+    (hr : nbLow.length = nb.length) (hd : sameSet (grid nbLow) (grid nb) = false) :
+    inferredLayerName (⟨dataLayer ℓ (grid nbLow) vals, nb, ks, nm⟩ : FromGraph V) = none := by
+  unfold inferredLayerName
+  simp only
+  rw [dataLayer_filter_rank hr, names_dataLayer]
+  have hP : ∀ n ∈ (grid nbLow).map (fun _ => ℓ),
+      ¬ sameSet (bidsOf (dataLayer ℓ (grid nbLow) vals) nb.length n) (grid nb) = true := by
+    intro n hn
+    simp only [List.mem_map] at hn
+    obtain ⟨_, _, rfl⟩ := hn
+    rw [bidsOf_dataLayer hr, hd]; simp
+  rw [List.filter_eq_nil_iff.mpr hP]
+
+
+
+theorem find0_byBlockId {E : Type} (c : Coll E) {ℓ : String} {vals : BlockId → V} (hne : ℓ ≠ c.rawName)
+    {b : BlockId} (hb : b ∈ grid c.numblocks) :
+    find0 (rebuild c (dataLayer ℓ (grid c.numblocks) vals)).expr b = .ok ⟨ℓ, b⟩ := by
+  have hg : grid c.numblocks ≠ [] := fun h => by rw [h] at hb; cases hb
+  have hinf := inferred_dataLayer (ℓ := ℓ) (nm := c.rawName) (vals := vals) (ks := []) hg
+  have hno : has (dataLayer ℓ (grid c.numblocks) vals) ⟨c.rawName, b⟩ = false := by
+    simp [has, get?_dataLayer_other hne]
+  simp only [find0, rebuild, keysByBlockId, findLayerKey, List.lookup, hno, hinf]
+  rfl
+
+/-- `dask.persist(x)`: blocks handed back under the lowered root name over OUR grid are found by block id -/
+theorem computeFG_byBlockId {E : Type} (c : Coll E) {ℓ : String} {vals : BlockId → V} (hne : ℓ ≠ c.rawName) :
+    computeFG (rebuild c (dataLayer ℓ (grid c.numblocks) vals)) = .ok (some ((grid c.numblocks).map vals)) := by
+  have hall : ∀ b ∈ grid (rebuild c (dataLayer ℓ (grid c.numblocks) vals)).expr.numblocks,
+      ∃ k, find0 (rebuild c (dataLayer ℓ (grid c.numblocks) vals)).expr b = .ok k :=
+    fun b hb => ⟨_, find0_byBlockId c hne hb⟩
+  obtain ⟨l, hl⟩ := (layerOf_ok_iff _).mpr hall
+  unfold computeFG
+  rw [hl]
+  have hr : RootKeys l c.rawName c.numblocks vals := by
+    intro b hb
+    exact layerOf_value (fg := (rebuild c (dataLayer ℓ (grid c.numblocks) vals)).expr) hl hb
+      (find0_byBlockId c hne hb) (Or.inl (get?_dataLayer hb))
+  simp only [rebuild, Coll.numblocks]
+  exact congrArg _ (computeKeys_eq hr)
+
+/-- … and over a DIFFERENT grid (a rewrite changed the block structure) the rebuild raises the
+ValueError "from_graph cannot find output block" -/
+theorem computeFG_drift {E : Type} (c : Coll E) {ℓ : String} {nbLow : List Nat} {vals : BlockId → V}
+    (hne : ℓ ≠ c.rawName) (hr : nbLow.length = c.numblocks.length)
+    (hd : sameSet (grid nbLow) (grid c.numblocks) = false) (hg : grid c.numblocks ≠ []) :
+    computeFG (rebuild c (dataLayer ℓ (grid nbLow) vals)) = .error .valueError := by
+  have ⟨b, hb⟩ : ∃ b, b ∈ grid c.numblocks := by
+    cases hgl : grid c.numblocks with
+    | nil => exact absurd hgl hg
+    | cons b r => exact ⟨b, List.mem_cons_self⟩
+  have hinf := inferred_dataLayer_drift (ℓ := ℓ) (nm := c.rawName) (vals := vals) (ks := []) hr hd
+  have hno : has (dataLayer ℓ (grid nbLow) vals) ⟨c.rawName, b⟩ = false := by
+    simp [has, get?_dataLayer_other hne]
+  have hf : find0 (rebuild c (dataLayer ℓ (grid nbLow) vals)).expr b = .error .valueError := by
+    apply (find0_error_iff (fg := (rebuild c (dataLayer ℓ (grid nbLow) vals)).expr) (kb := []) rfl b).mpr
+    exact ⟨fun e he => (by cases he), hno, hinf⟩
+  have := (layerOf_error_iff (rebuild c (dataLayer ℓ (grid nbLow) vals)).expr).mpr ⟨b, hb, hf⟩
+  unfold computeFG
+  rw [this]
+
+/-! ## the RootAlias pin -/
+
+theorem get?_none_of_noName {g : Layer V} {raw : String}
+    (h : g.any (fun p => p.1.name == raw) = false) (b : BlockId) : get? g ⟨raw, b⟩ = none := by
+  induction g with
+  | nil => rfl
+  | cons p r ih =>
+    obtain ⟨k, v⟩ := p
+    simp only [List.any_cons, Bool.or_eq_false_iff] at h
+    have hk : k ≠ ⟨raw, b⟩ := by
+      intro hk; subst hk; simp at h
+    simp only [get?, hk, if_false]
+    exact ih h.2
+
+theorem get?_aliasLayer {raw ℓ : String} : ∀ {bs : List BlockId} {b : BlockId}, b ∈ bs →
+    get? (bs.map (fun b => ((⟨raw, b⟩ : Key), (Node.alias ⟨ℓ, b⟩ : Node V)))) ⟨raw, b⟩ = some (.alias ⟨ℓ, b⟩)
+  | b0 :: bs, b, h => by
+    by_cases hb : b0 = b
+    · subst hb; simp [get?]
+    · have : (⟨raw, b0⟩ : Key) ≠ ⟨raw, b⟩ := fun h => hb (by cases h; rfl)
+      simp only [List.map_cons, get?, this, if_false]
+      rcases List.mem_cons.mp h with h | h
+      · exact absurd h.symm hb
+      · exact get?_aliasLayer h
+
+theorem evalKey_append {l r : Layer V} {v : V} : ∀ {f : Nat} {k : Key},
+    evalKey f l k = some v → evalKey f (l ++ r) k = some v
+  | 0, _, h => by simp [evalKey] at h
+  | f + 1, k, h => by
+    simp only [evalKey] at h ⊢
+    rw [get?_append]
+    cases hg : get? l k with
+    | none => simp [hg] at h
+    | some nd =>
+      cases nd with
+      | data v' => simpa [hg] using h
+      | task v' => simpa [hg] using h
+      | alias t =>
+        simp only [hg] at h ⊢
+        exact evalKey_append h
+
+theorem evalKey_mono {l : Layer V} {v : V} : ∀ {f f' : Nat} {k : Key},
+    evalKey f l k = some v → f ≤ f' → evalKey f' l k = some v
+  | 0, _, _, h, _ => by simp [evalKey] at h
+  | f + 1, 0, _, _, hle => by omega
+  | f + 1, f' + 1, k, h, hle => by
+    simp only [evalKey] at h ⊢
+    cases hg : get? l k with
+    | none => simp [hg] at h
+    | some nd =>
+      cases nd with
+      | data v' => simpa [hg] using h
+      | task v' => simpa [hg] using h
+      | alias t =>
+        simp only [hg] at h ⊢
+        exact evalKey_mono h (by omega)
+
+/-- the pinned graph defines `raw × grid` with the optimized root's block values -/
+theorem pin_rootKeys {raw : String} {nb : List Nat} {lo : Lowered V} {g : Layer V} {vals : BlockId → V}
+    (hlo : RootKeys lo.graph lo.name nb vals) (hp : pin raw nb lo = .ok g) : RootKeys g raw nb vals := by
+  unfold pin at hp
+  by_cases hn : lo.name = raw
+  · simp only [hn, if_true] at hp
+    cases hp; subst hn; exact hlo
+  · simp only [hn, if_false] at hp
+    cases hany : lo.graph.any (fun p => p.1.name == raw) with
+    | true => simp [hany] at hp
+    | false =>
+      simp only [hany] at hp
+      cases hp
+      intro b hb
+      have h0 := hlo b hb
+      unfold eval at h0 ⊢
+      have hget : get? (lo.graph ++ (grid nb).map (fun b => ((⟨raw, b⟩ : Key), (Node.alias ⟨lo.name, b⟩ : Node V))))
+          ⟨raw, b⟩ = some (.alias ⟨lo.name, b⟩) := by
+        rw [get?_append, get?_none_of_noName hany b]
+        exact get?_aliasLayer hb
+      simp only [evalKey, hget]
+      apply evalKey_mono (evalKey_append h0)
+      have : 0 < (grid nb).length := List.length_pos_of_mem hb
+      simp only [List.length_append, List.length_map]
+      omega
+
+/-- WITHOUT the pin a renamed root leaves the advertised keys undefined -/
+theorem unpinned_undefined {raw : String} {lo : Lowered V}
+    (hany : lo.graph.any (fun p => p.1.name == raw) = false) (b : BlockId) : eval lo.graph ⟨raw, b⟩ = none := by
+  simp [eval, evalKey, get?_none_of_noName hany b]
+
+
 end Dask.Lemmas.Entry
+
+/-! # C09 — the shared lowering cache -/
+namespace Dask.Lemmas.Memo
+open Dask.Memo
+variable {E N D Cfg : Type} [DecidableEq N]
+
+theorem get?_cons (n m : N) (e : E) (c : Cache E N) :
+    Cache.get? ((n, e) :: c) m = if m = n then some e else Cache.get? c m := by
+  unfold Cache.get?
+  by_cases h : m = n
+  · simp [List.lookup, h]
+  · have hb : (m == n) = false := by simpa using h
+    simp [List.lookup, hb, h]
+
+theorem get?_filter (n0 m : N) (c : Cache E N) :
+    Cache.get? (c.filter (fun p => !decide (p.1 = n0))) m = if m = n0 then none else Cache.get? c m := by
+  induction c with
+  | nil => simp [Cache.get?, List.lookup]
+  | cons p r ih =>
+    obtain ⟨n, e⟩ := p
+    by_cases hn : n = n0
+    · subst hn
+      simp only [List.filter, decide_true, Bool.not_true]
+      rw [ih, get?_cons]
+      by_cases hm : m = n <;> simp [hm]
+    · simp only [List.filter, hn, decide_false, Bool.not_false]
+      rw [get?_cons, get?_cons, ih]
+      by_cases hm : m = n
+      · subst hm; simp [hn]
+      · simp [hm]
+
+theorem Inv_nil (S : Sys E N D Cfg) : Inv S [] := by
+  intro n e' h; simp [Cache.get?, List.lookup] at h
+
+/-- storing a same-meaning result under the name of a node that does not opt out keeps the invariant
+(this is all `lowered.setdefault(self._name, out)` needs — also for `ChunksFreeze.lower_once`) -/
+theorem Inv_insert {S : Sys E N D Cfg} {c : Cache E N} {e out : E} (hc : Inv S c)
+    (ho : S.optsOut e = false) (hd : S.den out = S.den e) : Inv S ((S.name e, out) :: c) := by
+  intro n e' h
+  rw [get?_cons] at h
+  by_cases hn : n = S.name e
+  · simp only [hn, if_true] at h
+    cases h
+    exact ⟨e, ho, hn.symm, hd⟩
+  · simp only [hn, if_false] at h
+    exact hc n e' h
+
+theorem Inv_evict {S : Sys E N D Cfg} {c : Cache E N} (hc : Inv S c) (n0 : N) :
+    Inv S (c.filter (fun p => !decide (p.1 = n0))) := by
+  intro n e' h
+  rw [get?_filter] at h
+  by_cases hn : n = n0
+  · simp [hn] at h
+  · simp only [hn, if_false] at h
+    exact hc n e' h
+
+/-- a cache hit means what the node means (uses name injectivity, C06) -/
+theorem hit_sound {S : Sys E N D Cfg} {c : Cache E N} (hinj : NameInj S) (hc : Inv S c) {e hit : E}
+    (ho : S.optsOut e = false) (h : c.get? (S.name e) = some hit) : S.den hit = S.den e := by
+  obtain ⟨w, hw, hn, hd⟩ := hc _ _ h
+  rw [hd]
+  exact hinj w e hw ho hn
+
+theorem Inv_iff_everyEntrySound {S : Sys E N D Cfg} (hinj : NameInj S) {c : Cache E N} (hc : Inv S c) :
+    EveryEntrySound S c := by
+  intro n e' h e ho hn
+  subst hn
+  exact hit_sound hinj hc ho h
+
+theorem mapAccum_sound {S : Sys E N D Cfg} (f : Cache E N → E → E × Cache E N)
+    (hf : ∀ c e, Inv S c → Inv S (f c e).2 ∧ S.den (f c e).1 = S.den e) :
+    ∀ (ks : List E) (c : Cache E N), Inv S c → Inv S (mapAccum f c ks).2 ∧ SameDen S (mapAccum f c ks).1 ks
+  | [], c, hc => ⟨hc, SameDen.nil⟩
+  | k :: ks, c, hc => by
+    obtain ⟨h1, h2⟩ := hf c k hc
+    obtain ⟨h3, h4⟩ := mapAccum_sound f hf ks (f c k).2 h1
+    exact ⟨h3, SameDen.cons h2 h4⟩
+
+/-- ONE PASS: `lower_once` keeps the cache invariant and the meaning, for every configuration -/
+theorem lowerOnce_sound {S : Sys E N D Cfg} (hs : RuleSound S) (hinj : NameInj S) (cfg : Cfg) :
+    ∀ (fuel : Nat) (c : Cache E N) (e : E), Inv S c →
+      Inv S (lowerOnce S cfg fuel c e).2 ∧ S.den (lowerOnce S cfg fuel c e).1 = S.den e
+  | 0, c, e, hc => ⟨hc, rfl⟩
+  | fuel + 1, c, e, hc => by
+    unfold lowerOnce
+    cases ho : S.optsOut e with
+    | true => simpa using hc
+    | false =>
+      simp only [Bool.false_eq_true, if_false]
+      cases hget : c.get? (S.name e) with
+      | some hit => exact ⟨hc, hit_sound hinj hc ho hget⟩
+      | none =>
+        simp only
+        have hout : S.den ((S.rule cfg e).getD e) = S.den e := by
+          cases hr : S.rule cfg e with
+          | none => rfl
+          | some e' => exact hs.rule cfg e e' hr
+        obtain ⟨hc2, hkids⟩ := mapAccum_sound (lowerOnce S cfg fuel)
+          (fun c e hc => lowerOnce_sound hs hinj cfg fuel c e hc) (S.children ((S.rule cfg e).getD e)) c hc
+        generalize hr : mapAccum (lowerOnce S cfg fuel) c (S.children ((S.rule cfg e).getD e)) = r at hc2 hkids
+        have hout' : S.den (if (r.1.map S.name != (S.children ((S.rule cfg e).getD e)).map S.name) = true
+            then S.withChildren ((S.rule cfg e).getD e) r.1 else (S.rule cfg e).getD e) = S.den e := by
+          split
+          · rw [hs.congr _ _ hkids]; exact hout
+          · exact hout
+        cases hget2 : r.2.get? (S.name e) with
+        | some old => exact ⟨hc2, hit_sound hinj hc2 ho hget2⟩
+        | none => exact ⟨Inv_insert hc2 ho hout', hout'⟩
+
+theorem lowerLoop_sound {S : Sys E N D Cfg} (hs : RuleSound S) (hinj : NameInj S) (cfg : Cfg) (depth : Nat) :
+    ∀ (rounds : Nat) (c : Cache E N) (e : E), Inv S c →
+      Inv S (lowerLoop S cfg depth rounds c e).2 ∧ S.den (lowerLoop S cfg depth rounds c e).1 = S.den e
+  | 0, c, e, hc => ⟨hc, rfl⟩
+  | rounds + 1, c, e, hc => by
+    unfold lowerLoop
+    obtain ⟨h1, h2⟩ := lowerOnce_sound hs hinj cfg depth c e hc
+    simp only
+    split
+    · exact ⟨h1, rfl⟩
+    · obtain ⟨h3, h4⟩ := lowerLoop_sound hs hinj cfg depth rounds _ _ h1
+      exact ⟨h3, h4.trans h2⟩
+
+theorem materialize_sound {S : Sys E N D Cfg} (hs : RuleSound S) (hinj : NameInj S) (cfg : Cfg)
+    (depth rounds : Nat) (c : Cache E N) (e : E) (hc : Inv S c) :
+    Inv S (materialize S cfg depth rounds c e).2 ∧ S.den (materialize S cfg depth rounds c e).1 = S.den e := by
+  unfold materialize
+  cases ho : S.optsOut e with
+  | true => simpa using hc
+  | false =>
+    simp only [Bool.false_eq_true, if_false]
+    have h0 : S.den (if S.optimizeOn cfg = true then S.simplify cfg e else e) = S.den e := by
+      split
+      · exact hs.simplify cfg e
+      · rfl
+    obtain ⟨h1, h2⟩ := lowerLoop_sound hs hinj cfg depth rounds c
+      (if S.optimizeOn cfg = true then S.simplify cfg e else e) hc
+    generalize lowerLoop S cfg depth rounds c (if S.optimizeOn cfg = true then S.simplify cfg e else e) = r at h1 h2
+    refine ⟨h1, ?_⟩
+    have h3 : S.den (if S.optimizeOn cfg = true then S.fuse cfg r.1 else r.1) = S.den e := by
+      split
+      · rw [hs.fuse]; exact h2.trans h0
+      · exact h2.trans h0
+    generalize (if S.optimizeOn cfg = true then S.fuse cfg r.1 else r.1) = e1 at h3
+    split
+    · exact h3
+    · rw [hs.pinned]; exact h3
+
+theorem exec_sound {S : Sys E N D Cfg} (hs : RuleSound S) (hinj : NameInj S) (depth rounds : Nat)
+    (st : State E N Cfg) (step : Step E N Cfg) (hc : Inv S st.cache) : Inv S (exec S depth rounds st step).cache := by
+  cases step with
+  | setCfg cfg => exact hc
+  | build e => exact hc
+  | lower e => exact (materialize_sound hs hinj st.cfg depth rounds st.cache e hc).1
+  | compute e => exact (materialize_sound hs hinj st.cfg depth rounds st.cache e hc).1
+  | evict n => exact Inv_evict hc n
+
+theorem runHist_sound {S : Sys E N D Cfg} (hs : RuleSound S) (hinj : NameInj S) (depth rounds : Nat) :
+    ∀ (h : List (Step E N Cfg)) (st : State E N Cfg), Inv S st.cache → Inv S (runHist S depth rounds st h).cache
+  | [], _, hc => hc
+  | s :: h, st, hc => by
+    simp only [runHist, List.foldl]
+    exact runHist_sound hs hinj depth rounds h _ (exec_sound hs hinj depth rounds st s hc)
+
+/-- nodes that opt out are returned as they are and leave the cache untouched -/
+theorem lowerOnce_optsOut {S : Sys E N D Cfg} (cfg : Cfg) (fuel : Nat) (c : Cache E N) (e : E)
+    (ho : S.optsOut e = true) : lowerOnce S cfg fuel c e = (e, c) := by
+  cases fuel with
+  | zero => rfl
+  | succ f => simp [lowerOnce, ho]
+
+theorem materialize_optsOut {S : Sys E N D Cfg} (cfg : Cfg) (depth rounds : Nat) (c : Cache E N) (e : E)
+    (ho : S.optsOut e = true) : materialize S cfg depth rounds c e = (e, c) := by
+  simp [materialize, ho]
+
+end Dask.Lemmas.Memo
